@@ -123,8 +123,8 @@ Definition gl_grp (fi fid : aval) (fty : string) (n : nat) : result (Z * Z) :=
   else
     match finfo_get fi fid "min" with Err e => Err e | Ok a =>
     match finfo_get fi fid "max" with Err e => Err e | Ok b =>
-    match jint a with Err e => Err e | Ok a' =>
-    match jint b with Err e => Err e | Ok b' => Ok (a', b') end end end end.
+    match jint a with Err _ => Err FlamaException | Ok a' =>
+    match jint b with Err _ => Err FlamaException | Ok b' => Ok (a', b') end end end end.
 
 Definition gl_build (fi fid : aval) (fty : string) (info : finfo) (here : path) (parent : ptr)
   (kids : list (pfeature * bool)) : result pfeature :=
@@ -2340,3 +2340,21 @@ Example glencoe_read_bad_name :
      = Ok {| proot := PFeature (mk_info "r") PNone [] []; pctcs := [] |}.
 Proof. split; vm_compute; reflexivity. Qed.
 Print Assumptions glencoe_read_bad_name.
+
+(* a "GENOR" root over one optional child whose bound "min" is the string "1" is a library error; with the integer 1
+   it is read *)
+Definition ex_genor_doc (gmin : aval) : aval :=
+  VMap [("features",
+         VMap [("r", VMap [("name", VStr "r"); ("optional", VBool false); ("type", VStr "GENOR");
+                           ("min", gmin); ("max", VInt 1)]);
+               ("a", VMap [("name", VStr "a"); ("optional", VBool true); ("type", VStr "FEATURE")])]);
+        ("tree", VMap [("id", VStr "r"); ("children", VList [VMap [("id", VStr "a")]])]);
+        ("constraints", VMap [])].
+Example glencoe_read_bad_bounds :
+  glencoe_read (ex_genor_doc (VStr "1")) = Err FlamaException
+  /\ glencoe_read (ex_genor_doc (VInt 1))
+     = Ok {| proot := PFeature (mk_info "r") PNone []
+                        [PRelation (PPath []) 1 1 [PFeature (mk_info "a") (PPath []) [] []]];
+             pctcs := [] |}.
+Proof. split; vm_compute; reflexivity. Qed.
+Print Assumptions glencoe_read_bad_bounds.
